@@ -48,7 +48,33 @@ Proof.
   - vm_compute. split; reflexivity.
 Qed.
 
+(* a stream read that fails part-way reports at least everything it could have touched: the descriptor
+   read that the kernel aborts with EFAULT after storing the bytes in front of region offset [fault]
+   has ONE effect - written bytes [t0, fault), marked bytes the whole target [t0, t0+m) - so C05_sound
+   covers every byte it changed although the call returned an error *)
+Theorem C05_fault_read_effect : forall ri hm a cnt addr fault l, a_kind a = KSlice -> checked_sub (a_len a) addr = Some l ->
+  let m := N.min l cnt in let t0 := a_off a + addr in
+  m <> 0 -> fault < t0 + m ->
+  run_sop ri hm a (OReadFromFdFault cnt addr fault) =
+  {| o_ok := false; o_count := 0;
+     o_effs := [{| e_r := ri; e_woff := t0; e_wn := fault - t0; e_moff := bm_at (a_bm a) addr; e_mlen := m |}] |}.
+Proof. exact fault_read_effect_lemma. Qed.
+
+Example C05_fault_nonvacuous :
+  let r := {| r_start := 0; r_size := 8192; r_ps := 1024; r_tracked := true; r_dirty := repeat false 8 |} in
+  wf [r] /\
+  (let '(rs', out) := run_step 0 [r] (SAcc 0 [DSub 100 8000] (OReadFromFdFault 6000 3000 4096)) in
+   o_ok out = false /\
+   o_effs out = [{| e_r := 0; e_woff := 3100; e_wn := 996; e_moff := 3100; e_mlen := 5000 |}] /\
+   map r_dirty rs' = [[false; false; false; true; true; true; true; true]]).
+Proof.
+  cbv zeta. split.
+  - constructor; [|constructor]. unfold region_ok; cbn. split; [lia|]. split; [rewrite W64_val; lia|reflexivity].
+  - vm_compute. repeat split.
+Qed.
+
 Print Assumptions C05_sound.
+Print Assumptions C05_fault_read_effect.
 Print Assumptions C05_monotone.
 Print Assumptions C05_history_wf.
 Print Assumptions C05_bm_base_tracks.
